@@ -342,15 +342,17 @@ func (w *world) checkMembership(s *mempool.VerifSnapshot, op opCtx, after string
 		if wasPooled && cur == "" {
 			// (judged per operation only: over a whole concurrent round the per-account cap may legitimately have dropped
 			// it at a moment when it was the highest queued nonce)
-			// (not judged when the harness itself made the age rule drop every offered transaction at this commit AND a
-			// submission of the same sender was admitted at the commit's lock point: that submission promotes the queued
-			// transaction to the offered list first, where the pinned age rule then drops it; seen once in 5000 thorough
-			// cases at seed 2 and traced to exactly that)
-			promotedThenAged := op.kind == "commit" && op.drop0 && op.injSender >= 0 && op.injSender == t.Sender
+			// (not judged for the sender of a submission that was admitted at this commit's lock point: that submission
+			// runs the sender's promotion BEFORE the commit, against the pre-commit speculative state, which this oracle
+			// does not see. Two thorough cases were traced to it: seed 2 case 859, the queued transaction was promoted
+			// there and then dropped by the age rule the harness had pinned to "everything"; seed 1 case 4248, the
+			// sender could not afford the queued transaction in the pre-commit speculative state - a legitimate drop -
+			// and was rich again after the block)
+			promotedThenAged := op.kind == "commit" && op.injSender >= 0 && op.injSender == t.Sender
 			if t.Loc == "future" && op.kind != "round" && !promotedThenAged && w.wronglyDropped(t, s, next) {
 				w.violation("promotion/executable-dropped-instead-of-promoted",
 					fmt.Sprintf("queued tx %s of rich sender %s has the next executable nonce %d and the good list has room, but after %s it is neither offered, queued nor committed", short(h), w.fromStr(t), t.Nonce, after), s,
-					map[string]interface{}{"sender_history": w.slice(w.senderOf(t).Addr)})
+					map[string]interface{}{"sender_history": w.slice(w.senderOf(t).Addr), "state_check_of_the_tx_now": func() string { c, err := cloneTx(t.tx); if err != nil { return "clone: " + err.Error() }; return fmt.Sprint(w.N.App.CheckTx(c, false)) }()})
 				return
 			}
 			// A promotion that runs out of room must leave the rest of the run queued: the cheap plain transaction of a
